@@ -400,10 +400,11 @@ JOIN_THRESHOLD = 160
 
 
 class Fn:
-    def __init__(self, unit, path, name):
+    def __init__(self, unit, path, name, text=None):
+        """`text` = (return type words, parameter text, body text) of a synthetic function cut out of `path` (a slice)"""
         self.u, self.name, self.path = unit, name, path
         self.lean = name
-        rws, ptext, body = function_text(path, name)
+        rws, ptext, body = text if text is not None else function_text(path, name)
         self.rett = type_of_words(rws)
         self.ast = CP(minic.tokenize(body)).block()
         self.vars = {}          # C name -> dict(kind=…)
